@@ -17,7 +17,7 @@ Meaningful(c) ==
        IN c.F \subseteq new /\ new # {}
 
 PushCases(_u) == {c \in XferCases(InitPush, PushPair, ReqClosed, ShallowIdxModes, 2) : Meaningful(c)}
-FetchCases(_u) == {c \in XferCases(InitFetch, FetchPair, ReqClosed, {<<TRUE, FALSE>>, <<FALSE, FALSE>>}, 2) : Meaningful(c)}
+FetchCases(_u) == {c \in XferCases(InitFetch, FetchPair, ReqClosed, {<<TRUE, FALSE>>, <<FALSE, FALSE>>, <<TRUE, TRUE>>}, 2) : Meaningful(c)}
 
 (***************************** C06 : gc ******************************************)
 Fresh(s) == IF Class[s] = "local" THEN "ok_p" ELSE "ok_u"
